@@ -551,7 +551,6 @@ func recordAware(t *rapid.T, stream []byte) ([]byte, string) {
 }
 
 func TestC15_ReplayPerturbed(t *testing.T) {
-	p := tlsx.GetPKI()
 	n := 0
 	hx.Check(t, hx.N(2500, 30000), func(t *rapid.T) {
 		n++
@@ -574,46 +573,7 @@ func TestC15_ReplayPerturbed(t *testing.T) {
 			pt := gen.Perturb(stream, false).Draw(t, "perturb")
 			mutated, what = pt.Data, pt.Kind
 		}
-		seed := fmt.Sprint("rp", n)
-		var conn *gmtls.Conn
-		hub := wire.NewHub()
-		cw, sw := hub.Pipe("client:1", "server:443")
-		var endW, peerW *wire.Conn
-		switch ep {
-		case "gmclient":
-			cc := tlsx.GMClient(p, seed)
-			cc.Certificates = []gmtls.Certificate{p.Client.TLS}
-			conn, endW, peerW = gmtls.Client(cw, cc), cw, sw
-		case "tlsclient":
-			conn, endW, peerW = gmtls.Client(cw, tlsx.TLSClient(p, seed)), cw, sw
-		case "gmserver":
-			sc := tlsx.GMServer(p, seed)
-			sc.ClientAuth, sc.ClientCAs = gmtls.RequestClientCert, p.RootsSM2
-			conn, endW, peerW = gmtls.Server(sw, sc), sw, cw
-		case "autoserver", "autoserver_tls":
-			conn, endW, peerW = gmtls.Server(sw, tlsx.AutoServer(p, p.RSASrv, seed)), sw, cw
-		default:
-			conn, endW, peerW = gmtls.Server(sw, tlsx.TLSServer(p, p.RSASrv, seed)), sw, cw
-		}
-		_ = endW
-		var hsErr error
-		var pn *hx.PanicInfo
-		d := hub.GoAll(func() {
-			pn = hx.Try(func() { hsErr = conn.Handshake() })
-			conn.Close()
-		}, func() {
-			peerW.Write(mutated)
-			peerW.CloseWrite()
-			// drain what the endpoint says so that it never blocks on us
-			buf := make([]byte, 4096)
-			for {
-				if _, err := peerW.Read(buf); err != nil {
-					return
-				}
-			}
-		})
-		<-d[0]
-		<-d[1]
+		hsErr, pn, complete := replayAgainst(ep, mutated, fmt.Sprint("rp", n))
 		desc := fmt.Sprintf("endpoint=%s perturbation=%s (%d -> %d bytes) hs=%v", ep, what, len(stream), len(mutated), hsErr)
 		if pn != nil {
 			if _, spin := pn.Val.(wire.Spin); spin {
@@ -625,9 +585,93 @@ func TestC15_ReplayPerturbed(t *testing.T) {
 		if hsErr == nil {
 			t.Fatalf("handshake COMPLETED against a replayed recording\n%s", desc)
 		}
-		if conn.ConnectionState().HandshakeComplete {
+		if complete {
 			t.Fatalf("HandshakeComplete is true after a failed handshake\n%s", desc)
 		}
 		R.Case(true, hx.HashKey("rp", ep, mutated), "endpoint:"+map[string]string{"autoserver_tls": "autoserver"}[ep]+map[bool]string{true: "", false: ep}[ep == "autoserver_tls"], "replay_perturbed", "replay:"+what)
+	})
+}
+
+// replayAgainst feeds one byte stream, then end of input, to a fresh endpoint of the given kind.
+func replayAgainst(ep string, stream []byte, seed string) (hsErr error, pn *hx.PanicInfo, complete bool) {
+	p := tlsx.GetPKI()
+	var conn *gmtls.Conn
+	hub := wire.NewHub()
+	cw, sw := hub.Pipe("client:1", "server:443")
+	var peerW *wire.Conn
+	switch ep {
+	case "gmclient":
+		cc := tlsx.GMClient(p, seed)
+		cc.Certificates = []gmtls.Certificate{p.Client.TLS}
+		conn, peerW = gmtls.Client(cw, cc), sw
+	case "tlsclient":
+		conn, peerW = gmtls.Client(cw, tlsx.TLSClient(p, seed)), sw
+	case "gmserver":
+		sc := tlsx.GMServer(p, seed)
+		sc.ClientAuth, sc.ClientCAs = gmtls.RequestClientCert, p.RootsSM2
+		conn, peerW = gmtls.Server(sw, sc), cw
+	case "autoserver", "autoserver_tls":
+		conn, peerW = gmtls.Server(sw, tlsx.AutoServer(p, p.RSASrv, seed)), cw
+	default:
+		conn, peerW = gmtls.Server(sw, tlsx.TLSServer(p, p.RSASrv, seed)), cw
+	}
+	d := hub.GoAll(func() {
+		pn = hx.Try(func() { hsErr = conn.Handshake() })
+		conn.Close()
+	}, func() {
+		peerW.Write(stream)
+		peerW.CloseWrite()
+		// drain what the endpoint says so that it never blocks on us
+		buf := make([]byte, 4096)
+		for {
+			if _, err := peerW.Read(buf); err != nil {
+				return
+			}
+		}
+	})
+	<-d[0]
+	<-d[1]
+	return hsErr, pn, conn.ConnectionState().HandshakeComplete
+}
+
+var fuzzEndpoints = []string{"gmclient", "gmserver", "autoserver", "tlsserver", "tlsclient", "autoserver_tls"}
+
+// FuzzC15Stream: coverage-guided companion of TestC15_ReplayPerturbed (thorough tier only, run by the driver).
+// Input = the complete byte stream a peer sends before closing; oracle = the endpoint returns an error (its randoms
+// differ from every recorded session, so no stream can complete the handshake), never panics, never spins.
+func FuzzC15Stream(f *testing.F) {
+	for i, ep := range fuzzEndpoints {
+		kind := "gm"
+		if ep == "tlsserver" || ep == "tlsclient" || ep == "autoserver_tls" {
+			kind = "tls"
+		}
+		rec := record(kind)
+		stream := rec.c2s
+		if ep == "gmclient" || ep == "tlsclient" {
+			stream = rec.s2c
+		}
+		f.Add(uint8(i), stream)
+		recs := wire.SplitRecords(stream)
+		n := 0
+		for _, r := range recs[:min(len(recs), 4)] {
+			n += len(r)
+			f.Add(uint8(i), append([]byte(nil), stream[:n]...))
+		}
+	}
+	f.Fuzz(func(t *testing.T, idx uint8, data []byte) {
+		if len(data) > 1<<15 {
+			return
+		}
+		ep := fuzzEndpoints[int(idx)%len(fuzzEndpoints)]
+		hsErr, pn, complete := replayAgainst(ep, data, "fuzz-endpoint")
+		if pn != nil {
+			if _, spin := pn.Val.(wire.Spin); spin {
+				t.Fatalf("endpoint %s spins on ended input", ep)
+			}
+			t.Fatalf("endpoint %s PANICKED: %s", ep, pn)
+		}
+		if hsErr == nil || complete {
+			t.Fatalf("endpoint %s reports a COMPLETED handshake against a byte stream (hs=%v complete=%v)", ep, hsErr, complete)
+		}
 	})
 }
